@@ -630,8 +630,16 @@ type Closure struct {
 	Loop      bool
 }
 
-func (m *Model) ClosureOf(c Consumer, lp []LeafParam) *Closure {
+func (m *Model) ClosureOf(c Consumer, lp []LeafParam) *Closure { return m.closureOf(c, lp, false) }
+
+// MustClosure is the lower bound: what a successful Invoke must have executed.
+// Optional dependencies whose provider chain is unavailable, and optional
+// dependencies that are decorated (outside the claim), are left out.
+func (m *Model) MustClosure(c Consumer, lp []LeafParam) *Closure { return m.closureOf(c, lp, true) }
+
+func (m *Model) closureOf(c Consumer, lp []LeafParam, must bool) *Closure {
 	cl := &Closure{Fns: map[int]bool{}}
+	av := m.newAvail()
 	seenC := map[*MCtor]bool{}
 	seenD := map[*MDec]bool{}
 	var params func(c Consumer, lp []LeafParam)
@@ -679,6 +687,14 @@ func (m *Model) ClosureOf(c Consumer, lp []LeafParam) *Closure {
 					}
 				}
 				continue
+			}
+			if must && p.Opt {
+				if len(ds) > 0 {
+					continue
+				}
+				if n := m.NearestProv(c.Scope, p.Key); n == nil || av.ctorAvail(n) != yes {
+					continue
+				}
 			}
 			for _, d := range ds {
 				dec(d)
@@ -773,7 +789,10 @@ func (m *Model) RuntimeCycle(c Consumer, lp []LeafParam) []*MCtor {
 			}
 			return true
 		}
-		if m.MissingShallow(Consumer{Scope: n.Origin, Fn: n.Fn}, n.LP) {
+		if m.MissingShallow(Consumer{Scope: n.Origin, Fn: n.Fn}, n.LP) ||
+			m.newAvail().params(Consumer{Scope: n.Origin, Fn: n.Fn}, n.LP) == no {
+			// (a definitely unavailable dependency may make resolution fail
+			// here before it reaches the cyclic parameter: no claim)
 			// dig's shallow check fails before any parameter is resolved:
 			// resolution does not go through this constructor
 			done[n] = true
